@@ -274,6 +274,23 @@ pub fn gen_text(rng: &mut Rng, mode: &str) -> Vec<u32> {
             }
             t
         }
+        "limit" => {
+            // the X1-X8 machine AT the depth limit: embeddings up to level 118-126, then a short free play of initiators,
+            // terminators and letters (valid and overflowing isolates and embeddings in every nesting and order), a
+            // letter, a few more terminators, a letter — every letter's level shows what the play left on the stack and
+            // in the two overflow counts
+            let mut t = vec![];
+            for _ in 0..rng.range(0, 1) { let c = *rng.pick(&[L, R]); t.push(pick_char(rng, c)); }
+            let start_rtl = rng.chance(1, 2);
+            let depth = rng.range(118, 126);
+            for i in 0..depth { t.push(if (i % 2 == 0) == start_rtl { RLE_C } else { LRE_C }); }
+            let toks = [LRI_C, RLI_C, RLI_C, FSI_C, LRE_C, RLE_C, RLE_C, LRO_C, RLO_C, PDF_C, PDF_C, PDI_C, PDI_C, 0x61, 0x5D0, 0x31];
+            for _ in 0..rng.range(3, 12) { t.push(*rng.pick(&toks)); }
+            t.push(*rng.pick(&[0x62u32, 0x5D1]));
+            for _ in 0..rng.range(1, 8) { t.push(*rng.pick(&[PDF_C, PDF_C, PDI_C, PDI_C, 0x63, 0x5D2])); }
+            t.push(*rng.pick(&[0x64u32, 0x5D3, 0x32]));
+            t
+        }
         "deepiso" => {
             // more isolate initiators open at once than the embedding depth limit, closed almost completely,
             // then strong text: isolate matching (BD9) has no depth limit
@@ -788,8 +805,8 @@ fn line_case(rng: &mut Rng, modes: &[(&'static str, usize)]) -> (String, Input) 
     (mode, inp)
 }
 
-const MODES_ALL: [(&str, usize); 21] =
-    [("anychar", 4), ("edges", 2), ("manyparas", 1), ("removed", 1), ("short", 12), ("long", 4), ("iso", 6), ("deep", 2), ("brk", 4), ("sep", 4), ("words", 6), ("weak", 6), ("para", 4), ("max", 2), ("deep-paras", 1), ("stale", 3), ("brk-order", 2), ("deep-count", 1), ("n0", 8), ("deepiso", 1), ("siblings", 1)];
+const MODES_ALL: [(&str, usize); 22] =
+    [("anychar", 4), ("edges", 2), ("manyparas", 1), ("removed", 1), ("short", 12), ("long", 4), ("iso", 6), ("deep", 2), ("brk", 4), ("sep", 4), ("words", 6), ("weak", 6), ("para", 4), ("max", 2), ("deep-paras", 1), ("stale", 3), ("brk-order", 2), ("deep-count", 1), ("limit", 2), ("n0", 8), ("deepiso", 1), ("siblings", 1)];
 
 /// Exhaustive small scope (support for the thorough tier, never presented as proof): the `n`-th class
 /// sequence over `alphabet`, shortest first, crossed with the three base directions; representatives rotate.
@@ -987,7 +1004,7 @@ pub fn gen_case(prop: &str, rng: &mut Rng, n: usize, thorough: bool) -> (String,
         }
         "C11" => {
             if rng.chance(2, 3) {
-                bidi_case(rng, &[("deep", 4), ("brk", 4), ("max", 2), ("deep-paras", 1), ("brk-order", 2), ("deep-count", 2)], false)
+                bidi_case(rng, &[("deep", 4), ("brk", 4), ("max", 2), ("limit", 5), ("deep-paras", 1), ("brk-order", 2), ("deep-count", 2)], false)
             } else {
                 line_case(rng, &[("deep", 3), ("max", 4), ("brk", 2)])
             }
